@@ -156,7 +156,7 @@ deriving Repr
 /-! ## the schema shape (what the generated builder expression builds) -/
 
 inductive Sch
-  | obj (props : List (Str × Bool × Sch)) (flattened : List Sch)   -- name, required, schema — in order; flattened inner schemas
+  | obj (props : List (Str × Bool × Sch)) (flattened : List (Bool × Sch))   -- name, required, schema — in order; flattened members: (all keys optional, schema)
   | enm (names : List Str)                                          -- string().enumerates([...])
   | oneOf (ss : List Sch)
   | anyOf (ss : List Sch)
@@ -184,7 +184,7 @@ def isOptional (cdefault : Bool) (f : Field) : Bool := f.option || cdefault || f
 def fieldSch (f : Field) : Sch := if f.withFn then .withFn else .ty f.inner
 
 /-- the loop over named fields of `schema_of_fields`: accumulates `.property / .optional` calls and flatten loops -/
-def namedLoop (ra : Option Rule) (cdefault : Bool) : List Field → List (Str × Bool × Sch) → List Sch → Option Sch
+def namedLoop (ra : Option Rule) (cdefault : Bool) : List Field → List (Str × Bool × Sch) → List (Bool × Sch) → Option Sch
   | [], ps, fl => some (.obj ps.reverse fl.reverse)
   | f :: fs, ps, fl =>
     if f.skip || f.skipSer then namedLoop ra cdefault fs ps fl
@@ -192,7 +192,7 @@ def namedLoop (ra : Option Rule) (cdefault : Bool) : List Field → List (Str ×
       | none => none
       | some n =>
         if f.withFn then namedLoop ra cdefault fs ((n, !isOptional cdefault f, .withFn) :: ps) fl
-        else if f.flatten then namedLoop ra cdefault fs ps (.ty f.inner :: fl)
+        else if f.flatten then namedLoop ra cdefault fs ps ((f.option, .ty f.inner) :: fl)
         else namedLoop ra cdefault fs ((n, !isOptional cdefault f, .ty f.inner) :: ps) fl
 
 def schemaOfFields (ra : Option Rule) (cdefault : Bool) : Fields → Option Sch
@@ -237,7 +237,7 @@ def allM {α β} (f : α → Option β) : List α → Option (List β)
 
 def schemaOfVariants (e : EnumDef) : Option Sch :=
   let written := e.variants.filter fun v => !(v.skip || v.skipSer)
-  if e.variants.all (·.fields.isUnit) then
+  if e.variants.all (·.fields.isUnit) && e.tag.isNone && !e.untagged then
     (allM (fun v => name applyVariant e.renameAll v.ident v.rename) written).map .enm
   else
     (allM (variantSch e) written).map fun ss => if e.untagged then .anyOf ss else .oneOf ss
